@@ -156,6 +156,13 @@ func (fr *frame) localEnvAtInstr(site ssa.Instruction, heap *Heap) map[string]Va
 			}
 		}
 	}
+	for old, v := range fr.aliasVals {
+		if _, have := env[old]; !have {
+			if val, ok := fr.valOK(v); ok {
+				env[old] = val
+			}
+		}
+	}
 	return env
 }
 
